@@ -47,6 +47,12 @@ use crate::{
     varint::{EncodeBytes, VARINT_MAX, WriteVarInt, be_varint},
 };
 
+/// Stub for core's slice-index panic path (maintainer's perf note 2): the panic is still reported as
+/// a failed check, only the message formatting is cut out of the symbolic execution.
+pub(crate) fn stub_slice_index_fail(_s: usize, _e: usize, _l: usize) -> ! {
+    panic!("slice index out of range")
+}
+
 /// Stub for `alloc::fmt::format` (error *texts* are irrelevant; DESIGN.md §2.3 `no_fmt`).
 pub(crate) fn stub_fmt(_a: core::fmt::Arguments<'_>) -> String {
     String::new()
@@ -375,6 +381,7 @@ fn rt_cid_roundtrip() {
 /// 0x3d7e9x extension types), whatever bytes follow; the type's VarInt image is the RFC 9000 /
 /// gm-quic extension code point and `try_from` inverts `into`.
 #[kani::proof]
+#[kani::stub(core::slice::index::slice_index_fail, stub_slice_index_fail)]
 #[kani::unwind(10)]
 #[kani::stub(alloc::fmt::format, stub_fmt)]
 fn c05_frame_type_roundtrip() {
@@ -803,6 +810,7 @@ fn rt_new_token_roundtrip() {
 /// `put_frame` writes `put_varint(len)`, which takes two bytes from len = 64 on: the frame is
 /// admitted by `Package::dump` into 66 bytes of room and then writes 67.
 #[kani::proof]
+#[kani::stub(core::slice::index::slice_index_fail, stub_slice_index_fail)]
 #[kani::unwind(10)]
 fn c05_new_token_len64_size_pending() {
     let token = [0u8; 64];
@@ -940,6 +948,7 @@ fn rt_close_quic_roundtrip<const L: usize>() {
 /// bytes. Such a frame is produced by `QuicError::new(kind, fty.into(), ..)` for any error raised
 /// while handling one of those frames, e.g. `frame::Error::ParseError(AddAddress, ..)`.
 #[kani::proof]
+#[kani::stub(core::slice::index::slice_index_fail, stub_slice_index_fail)]
 #[kani::unwind(12)]
 fn c05_close_quic_ext_type_size_pending() {
     let kind = any_error_kind();
@@ -1273,6 +1282,7 @@ pub(crate) fn model_be_varint(input: &[u8]) -> nom::IResult<&[u8], VarInt> {
 /// C05/C03: the model equals the real `be_varint` on every byte string of length 0..=16 (the
 /// parser never looks past the first 8 bytes, so longer inputs behave like their 16-byte prefix).
 #[kani::proof]
+#[kani::stub(core::slice::index::slice_index_fail, stub_slice_index_fail)]
 #[kani::unwind(10)]
 fn c05_varint_model_equivalence() {
     let arr: [u8; 16] = kani::any();
@@ -1305,6 +1315,8 @@ macro_rules! dual {
     ($(#[$doc:meta])* $quick:ident, $real:ident, $unwind:expr, $unwind_real:expr, $body:block) => {
         $(#[$doc])*
         #[kani::proof]
+        #[kani::stub(core::slice::index::slice_index_fail, stub_slice_index_fail)]
+#[kani::stub(core::slice::index::slice_index_fail, stub_slice_index_fail)]
         #[kani::unwind($unwind)]
         #[kani::stub(crate::varint::be_varint, model_be_varint)]
         #[kani::stub(alloc::fmt::format, stub_fmt)]
@@ -1312,6 +1324,8 @@ macro_rules! dual {
 
         $(#[$doc])*
         #[kani::proof]
+        #[kani::stub(core::slice::index::slice_index_fail, stub_slice_index_fail)]
+#[kani::stub(core::slice::index::slice_index_fail, stub_slice_index_fail)]
         #[kani::unwind($unwind_real)]
         #[kani::stub(alloc::fmt::format, stub_fmt)]
         fn $real() $body
@@ -1324,6 +1338,7 @@ macro_rules! dual {
 
 /// C05 varint on the real parser: put_varint and encode_varint -> be_varint.
 #[kani::proof]
+#[kani::stub(core::slice::index::slice_index_fail, stub_slice_index_fail)]
 #[kani::unwind(10)]
 fn c05_varint_roundtrip() {
     if kani::any() {
@@ -1335,6 +1350,7 @@ fn c05_varint_roundtrip() {
 
 /// C05 StreamId and ConnectionId (length 0..=20) codecs on the real parsers.
 #[kani::proof]
+#[kani::stub(core::slice::index::slice_index_fail, stub_slice_index_fail)]
 #[kani::unwind(22)]
 fn c05_sid_cid_roundtrip() {
     if kani::any() {
@@ -1386,6 +1402,7 @@ dual! {
 
 /// C05 PATH_CHALLENGE, PATH_RESPONSE (8 arbitrary bytes; the response echoes the challenge).
 #[kani::proof]
+#[kani::stub(core::slice::index::slice_index_fail, stub_slice_index_fail)]
 #[kani::unwind(12)]
 fn c05_path_frames_roundtrip() {
     rt_path_frames_roundtrip()
@@ -1395,6 +1412,7 @@ fn c05_path_frames_roundtrip() {
 /// constructors: fields appear on the wire in the documented order, sizes are exact,
 /// `PunchDoneFrame::respond_to` mirrors the sequence numbers. (No decoder involved.)
 #[kani::proof]
+#[kani::stub(core::slice::index::slice_index_fail, stub_slice_index_fail)]
 #[kani::unwind(10)]
 fn c05_traversal_ctor_wire_order() {
     let which: u8 = kani::any();
@@ -1443,6 +1461,7 @@ dual! {
 /// C05 CONNECTION_CLOSE, application layer (0x1d), ASCII reason of symbolic length 0..=8
 /// (be_varint model; from_utf8_lossy replaced by its ASCII-exact model).
 #[kani::proof]
+#[kani::stub(core::slice::index::slice_index_fail, stub_slice_index_fail)]
 #[kani::unwind(10)]
 #[kani::stub(crate::varint::be_varint, model_be_varint)]
 #[kani::stub(std::string::String::from_utf8_lossy, model_from_utf8_lossy_ascii)]
@@ -1457,6 +1476,7 @@ fn c05_close_app_roundtrip() {
 
 /// Same on the real nom be_varint (thorough).
 #[kani::proof]
+#[kani::stub(core::slice::index::slice_index_fail, stub_slice_index_fail)]
 #[kani::unwind(10)]
 #[kani::stub(std::string::String::from_utf8_lossy, model_from_utf8_lossy_ascii)]
 fn c05_close_app_roundtrip_real() {
@@ -1470,6 +1490,7 @@ fn c05_close_app_roundtrip_real() {
 
 /// C05 CONNECTION_CLOSE, transport layer (0x1c), ASCII reason of symbolic length 0..=8.
 #[kani::proof]
+#[kani::stub(core::slice::index::slice_index_fail, stub_slice_index_fail)]
 #[kani::unwind(10)]
 #[kani::stub(crate::varint::be_varint, model_be_varint)]
 #[kani::stub(alloc::fmt::format, stub_fmt)]
@@ -1485,6 +1506,7 @@ fn c05_close_quic_roundtrip() {
 
 /// Same on the real nom be_varint (thorough).
 #[kani::proof]
+#[kani::stub(core::slice::index::slice_index_fail, stub_slice_index_fail)]
 #[kani::unwind(10)]
 #[kani::stub(alloc::fmt::format, stub_fmt)]
 #[kani::stub(std::string::String::from_utf8_lossy, model_from_utf8_lossy_ascii)]
@@ -1500,6 +1522,7 @@ fn c05_close_quic_roundtrip_real() {
 /// C05 "admitted by size always fits" for STREAM and CRYPTO frames, pure size arithmetic, every room
 /// up to 64 KiB (see rt_stream_strategy_fits / rt_crypto_capacity_fits).
 #[kani::proof]
+#[kani::stub(core::slice::index::slice_index_fail, stub_slice_index_fail)]
 #[kani::unwind(10)]
 fn c05_data_frame_capacity_fits() {
     if kani::any() {
@@ -1529,6 +1552,7 @@ dual! {
 /// (typo for `offset + length`), so a valid CRYPTO frame with offset >= 2^61 (offset + length <=
 /// 2^62-1) is encodable but its own decoder rejects it (TooLarge -> FRAME_ENCODING_ERROR).
 #[kani::proof]
+#[kani::stub(core::slice::index::slice_index_fail, stub_slice_index_fail)]
 #[kani::unwind(10)]
 #[kani::stub(crate::varint::be_varint, model_be_varint)]
 fn c05_crypto_high_offset_pending() {
